@@ -27,6 +27,102 @@ type Case struct {
 	KeepAlive bool       `json:"keep_alive"`
 	Faults    []FaultAt  `json:"faults,omitempty"`
 	Salt      string     `json:"salt"`
+	// Chunked (world): the target's seq-th answer is sent WITHOUT Content-Length, flushed in pieces (chunked transfer
+	// encoding), when Chunked[seq mod len] is set; all others carry Content-Length. ChunkSplit places the cut.
+	Chunked    []bool `json:"chunked,omitempty"`
+	ChunkSplit int    `json:"chunk_split,omitempty"`
+}
+
+// chunkAt tells how the seq-th answer is transferred: 0 = with Content-Length, otherwise chunked and cut after
+// (chunkAt-1) mod (len(body)+1) bytes.
+func (c Case) chunkAt(seq int) int {
+	if len(c.Chunked) == 0 || !c.Chunked[seq%len(c.Chunked)] {
+		return 0
+	}
+	return 1 + c.ChunkSplit + 7*seq
+}
+
+func genChunking(t *rapid.T, c *Case) {
+	if !chance(t, 65, "chunkedReplies") {
+		return
+	}
+	n := uni(t, 1, 4, "chunkPeriod")
+	any := false
+	for i := 0; i < n; i++ {
+		b := rapid.Bool().Draw(t, "chunked")
+		c.Chunked = append(c.Chunked, b)
+		any = any || b
+	}
+	if !any {
+		c.Chunked[uni(t, 0, n-1, "chunkedOne")] = true
+	}
+	c.ChunkSplit = rapid.IntRange(0, 6000).Draw(t, "chunkSplit")
+}
+
+// Body sizes of the world (MakeReply): without padding every body is 95..195 bytes long whatever the values and faults
+// (json about 105-130, html about 135-160); padding adds RespPad bytes and at most 15 of wrapping. Thresholds of `<` / `>`
+// size assertions keep at least 40 bytes away from that range (checkSeq verifies a distance of 20 for every judged reply).
+func bodySizeRange(r *si.Request) (low, high int) {
+	low, high = 95, 195
+	if r.RespPad > 0 {
+		low, high = low+r.RespPad, high+r.RespPad+15
+	}
+	return
+}
+
+// eqPlaceholder marks an `=` size assertion whose value is the exact size of one of the planned answers (set by
+// resolveEqSizes once the plan of the run is known).
+const eqPlaceholder = -1
+
+func (g *pgen) sizeAssert(r *si.Request) *si.SizeAssert {
+	t := g.t
+	low, high := bodySizeRange(r)
+	ops := []string{"<", ">", "=", "<", ">"}
+	holds := chance(t, 70, "sizeHolds")
+	if g.concurrent {
+		// the answers of the concurrent test are a function of the request: only assertions that hold
+		ops, holds = ops[:2], true
+	}
+	a := &si.SizeAssert{Op: rapid.SampledFrom(ops).Draw(t, "sizeOp")}
+	above := high + rapid.SampledFrom([]int{40, 500, 100000}).Draw(t, "sizeAbove")
+	below := low - rapid.SampledFrom([]int{40, 90, low}).Draw(t, "sizeBelow")
+	switch {
+	case a.Op == "=" && holds:
+		a.Val = eqPlaceholder
+	case a.Op == "=":
+		a.Val = rapid.SampledFrom([]int{below, above, 0}).Draw(t, "sizeNever")
+	case (a.Op == "<") == holds:
+		a.Val = above
+	default:
+		a.Val = below
+	}
+	return a
+}
+
+// resolveEqSizes gives every placeholder `=` assertion the exact size of the fault-free answer at one of the positions
+// its request has in the plan (answers at other positions may differ in length: the interpreter judges each).
+func resolveEqSizes(t *rapid.T, c *Case, defs []string) {
+	for i := range c.Prog.Requests {
+		r := &c.Prog.Requests[i]
+		for j := range r.Posts {
+			sz := r.Posts[j].Size
+			if sz == nil || sz.Val != eqPlaceholder {
+				continue
+			}
+			var at []int
+			for n, name := range defs {
+				if name == r.Name {
+					at = append(at, n)
+				}
+			}
+			if len(at) == 0 {
+				sz.Val = 0
+				continue
+			}
+			n := at[uni(t, 0, len(at)-1, "sizeEqAt")]
+			sz.Val = len(c.reply(r, n).Body)
+		}
+	}
 }
 
 func (c Case) shots() int {
@@ -318,6 +414,9 @@ func (g *pgen) posts() {
 		if chance(t, 30, "html") {
 			r.RespKind = "html"
 		}
+		if chance(t, 25, "respPad") {
+			r.RespPad = rapid.SampledFrom([]int{300, 1500, 2500, 5000}).Draw(t, "respPadBytes")
+		}
 		np := rapid.SampledFrom([]int{0, 1, 1, 1, 2, 2}).Draw(t, "nPosts")
 		usedKinds := map[string]bool{}
 		for k := 0; k < np; k++ {
@@ -366,7 +465,10 @@ func (g *pgen) posts() {
 			if chance(t, 50, "assertBody") {
 				a.BodyHas = []string{si.Marker}
 			}
-			if chance(t, 40, "assertHeader") || (a.Status == 0 && len(a.BodyHas) == 0) {
+			if chance(t, 45, "assertSize") {
+				a.Size = g.sizeAssert(r)
+			}
+			if chance(t, 40, "assertHeader") || (a.Status == 0 && len(a.BodyHas) == 0 && a.Size == nil) {
 				a.HeaderHas = scengen.KVs{{K: "X-Tok", V: "H"}}
 			}
 			pos := rapid.IntRange(0, len(r.Posts)).Draw(t, "assertPos")
@@ -840,6 +942,8 @@ func genCase(t *rapid.T) Case {
 	}
 	c.Salt = rapid.StringMatching(`[a-z]{2}`).Draw(t, "salt")
 	defs := planRun(&c.Prog, c.Cycles)
+	resolveEqSizes(t, &c, defs)
+	genChunking(t, &c)
 	// faults that change the course of a scenario: (position, kind) pairs read off the fault-free plan
 	type fk struct {
 		n    int
@@ -862,6 +966,9 @@ func genCase(t *rapid.T) Case {
 				}
 				if p.Status != 0 {
 					effective = append(effective, fk{n, si.FaultStatus})
+				}
+				if p.Size != nil {
+					effective = append(effective, fk{n, si.FaultBloat})
 				}
 			}
 			for _, m := range p.Map {
@@ -901,7 +1008,7 @@ func genCase(t *rapid.T) Case {
 			f = FaultAt{N: e.n, Kind: e.kind}
 		} else {
 			f = FaultAt{N: rapid.IntRange(0, len(defs)-1).Draw(t, "faultAt")}
-			f.Kind = rapid.SampledFrom([]string{si.FaultClose, si.FaultStatus, si.FaultNoMarker, si.FaultNoHeader, si.FaultObjString, si.FaultBodyCut}).Draw(t, "faultKind")
+			f.Kind = rapid.SampledFrom([]string{si.FaultClose, si.FaultStatus, si.FaultNoMarker, si.FaultNoHeader, si.FaultObjString, si.FaultBodyCut, si.FaultBloat}).Draw(t, "faultKind")
 		}
 		if at[f.N] {
 			continue
@@ -931,5 +1038,6 @@ func genConcurrentCase(t *rapid.T) Case {
 	c.Instances = rapid.IntRange(1, 4).Draw(t, "instances")
 	c.KeepAlive = rapid.Bool().Draw(t, "keepAlive")
 	c.Salt = rapid.StringMatching(`[a-z]{2}`).Draw(t, "salt")
+	genChunking(t, &c)
 	return c
 }
